@@ -144,6 +144,7 @@ def sem_Compare(H, n):
              qforall([j], z3.Implies(z3.And(EV(n), j >= 0, j < m - 1, EV(cs[j])), z3.And(DID_TRUTH(link(j)), EV(cs[j + 1]) == TRUTHY(link(j))))),
              qforall([j], z3.Implies(z3.And(EV(n), j >= 1, j < m, z3.Not(EV(cs[j - 1]))), z3.Not(EV(cs[j])))),
              qforall([j], z3.Implies(z3.And(EV(n), j >= 0, j < m, EV(cs[j]), z3.Or(j == m - 1, z3.Not(EV(cs[j + 1])))), VAL(n) == link(j)))]
+    facts.append(qforall([j], z3.Implies(z3.And(j >= 0, j < m), z3.Or([OPCLS(ops[j]) == clsref("ast." + nm) for nm in CMP_OPS]))))
     for nm in CMP_OPS:
         facts.append(qforall([j], z3.Implies(z3.And(j >= 0, j < m), ISINST(ops[j], clsref("ast." + nm)) == (OPCLS(ops[j]) == clsref("ast." + nm)))))
     return facts
@@ -154,3 +155,54 @@ def sem_elements(H, n, field):
     es = lst(H, attr(H, n, field))
     j = z3.Int("j!el")
     return [qforall([j], z3.Implies(z3.And(EV(n), j >= 0, j < z3.Length(es)), EV(es[j])))]
+
+
+# ---- more axioms -----------------------------------------------------------------------------------------------------
+def truth_of_bools():
+    return [TRUTHY(TRUE), z3.Not(TRUTHY(FALSE)), z3.Not(TRUTHY(NONE))]
+
+
+def identity_comparisons():
+    a, b = z3.Int("a!id"), z3.Int("b!id")
+    return [qforall([a, b], CMP(clsref("ast.Is"), a, b) == z3.If(a == b, TRUE, FALSE), patterns=[CMP(clsref("ast.Is"), a, b)]),
+            qforall([a, b], CMP(clsref("ast.IsNot"), a, b) == z3.If(a == b, FALSE, TRUE), patterns=[CMP(clsref("ast.IsNot"), a, b)])]
+
+
+def sem_Name(H, n, ntv):
+    """A name outside comprehension scope: the current binding (arguments > closure > globals, as merged by the visitor and
+    updated by assignment expressions), else the built-in of that name; an unbound name is a NameError, i.e. not evaluated."""
+    nid = attr(H, n, "id")
+    bound = z3.Select(dom(H, ntv), nid)
+    return [z3.Implies(EV(n), z3.And(ISINST(attr(H, n, "ctx"), clsref("ast.Load")), z3.Or(bound, HAS_BUILTIN(nid)),
+                                     VAL(n) == z3.If(bound, z3.Select(val(H, ntv), nid), BUILTIN(nid)),
+                                     z3.Implies(bound, z3.Select(val(H, ntv), nid) != PLACEHOLDER)))]
+
+
+def sem_NamedExprFull(H, n):
+    v, t = attr(H, n, "value"), attr(H, n, "target")
+    return [z3.Implies(EV(n), z3.And(EV(v), VAL(n) == VAL(v), ISINST(attr(H, t, "ctx"), clsref("ast.Store"))))]
+
+
+VS = z3.Function("py_values_of", I, SeqI)  # list of nodes -> the sequence of their values
+MKSET = z3.Function("py_set_of", SeqI, I)
+JOIN = z3.Function("py_join", SeqI, I)
+FORMAT = z3.Function("py_format", I, I, I, I)  # (value, conversion, format spec or None)
+
+
+def values_of(H, l):
+    es = lst(H, l)
+    j = z3.Int("j!vs")
+    return [z3.Length(VS(l)) == z3.Length(es), qforall([j], z3.Implies(z3.And(j >= 0, j < z3.Length(es)), VS(l)[j] == VAL(es[j])))]
+
+
+def sem_display(kind, mk):
+    def sem(H, n):
+        l = attr(H, n, "elts")
+        return sem_elements(H, n, "elts") + values_of(H, l) + [z3.Implies(EV(n), VAL(n) == mk(VS(l))),
+                                                                z3.Implies(EV(n), z3.Not(ISINST(attr(H, n, "ctx"), clsref("ast.Store"))))]
+    return sem
+
+
+def sem_JoinedStr(H, n):
+    l = attr(H, n, "values")
+    return sem_elements(H, n, "values") + values_of(H, l) + [z3.Implies(EV(n), VAL(n) == JOIN(VS(l)))]
